@@ -181,6 +181,7 @@ func (r *Report) Mismatch(key, kind, mismatch string, d D) {
 			r.timeouts++
 			if r.timeouts >= 3 { // stop exploring: every further hang costs a watchdog period
 				r.deadline = time.Now()
+				StopAll.Store(true)
 				r.caps = append(r.caps, "exploration stopped after 3 non-terminating cases")
 				r.notExh = true
 			}
